@@ -212,6 +212,14 @@ pub fn issue(
     out
 }
 
+/// Issue with an arbitrary holder JWK given as JSON (symmetric, RSA, with extra parameters ...).
+pub fn issue_with_jwk(issuer: &mut SDJWTIssuer, claims: &Value, strategy: &Strategy, jwk: Option<&Value>, decoys: bool, fmt: Fmt) -> Outcome<String> {
+    let parsed: Option<jsonwebtoken::jwk::Jwk> = jwk.and_then(|j| serde_json::from_value(j.clone()).ok());
+    let out = guarded(|| issuer.issue_sd_jwt(claims.clone(), strategy.to_lib(), parsed, decoys, fmt.lib()));
+    record(OP_ISSUE, "issue_sd_jwt", || json!({"claims": trunc(&claims.to_string()), "strategy": strategy.describe(), "holder_jwk": jwk, "decoys": decoys, "format": fmt.name()}), &out);
+    out
+}
+
 /// Issue with a raw library strategy (malformed paths etc.).
 pub fn issue_raw(
     issuer: &mut SDJWTIssuer,
@@ -305,6 +313,11 @@ pub enum Resolver {
     SecretFromPublic(Alg, usize),
     /// keyed by the header's `kid`: "k0" -> key 0, anything else (or none) -> key 1
     ByKid(Alg),
+    /// key of one of the additional signing-oracle algorithms (RS256, PS256, ES384, ...)
+    Extra(&'static str),
+    /// like Fixed, but the callback first verifies ANOTHER presentation on the same thread
+    /// (a resolver that checks a trust statement before it hands out the key)
+    Reentrant(Alg, usize, String, Fmt),
 }
 
 #[derive(Clone, Debug, PartialEq)]
@@ -351,6 +364,13 @@ pub fn verify_raw(
             Resolver::ByIss(a) => keys::issuer_dec(*a, if iss.ends_with("/A") { 0 } else { 1 }),
             Resolver::SecretFromPublic(a, i) => DecodingKey::from_secret(&keys::issuer_public_bytes(*a, *i)),
             Resolver::ByKid(a) => keys::issuer_dec(*a, if header.kid.as_deref() == Some("k0") { 0 } else { 1 }),
+            Resolver::Extra(n) => keys::extra_dec(n),
+            Resolver::Reentrant(a, i, inner, f) => {
+                let a2 = *a;
+                let i2 = *i;
+                let _ = SDJWTVerifier::new(inner.clone(), Box::new(move |_, _| keys::issuer_dec(a2, i2)), None, None, f.lib());
+                keys::issuer_dec(*a, *i)
+            }
         }
     });
     let desc = json!({"presentation": trunc(pres), "resolver": format!("{resolver:?}"), "aud": aud.as_deref().map(trunc), "nonce": nonce.as_deref().map(trunc), "format": fmt.name()});
